@@ -493,7 +493,23 @@ fn c06_type<T: KS, L: Lab>(out: &mut Out, rng0: &mut Rng, tier: &Tier, nsets: us
                     }
                 })
                 .collect();
-            let res = run::<T, L>(&fr, &p, rng.below(2), &[]);
+            // half of the runs under a memory budget that forces several bucket passes (hook H1): the table of the
+            // flipped reads must not depend on it either
+            let pp = if rng.chance(1, 2) {
+                let size_of = std::mem::size_of::<(T, L)>();
+                let input_kmers: usize = fr.iter().map(|r| r.seq.len().saturating_sub(k - 1)).sum();
+                let slices = match rng.below(4) {
+                    0 => 2,
+                    1 => rng.range(3, 9),
+                    2 => rng.range(10, 130),
+                    _ => 257,
+                };
+                let (mem, unit) = mem_for(&mut rng, input_kmers * size_of, slices);
+                Params { mem, unit, ..p.clone() }
+            } else {
+                p.clone()
+            };
+            let res = run::<T, L>(&fr, &pp, rng.below(2), &[]);
             *nflips.entry(flips.iter().filter(|f| **f).count()).or_insert(0) += 1;
             out.nt = rep && s != 0;
             let input = vec![nu(k), b(p.report_all), n(p.kind), nu(p.thr), rv.clone(), l(flips.iter().map(|f| b(*f)).collect())];
